@@ -136,6 +136,9 @@ class StrOps:
         r = g.r
         k = r.random()
         sign = r.choice(["", "", "-", "+"])
+        if k < 0.02:
+            g.note("lit_kind", "repaired-fixed")
+            return r.choice(self.REPAIRED)
         if k < 0.08:
             g.note("lit_kind", "special")
             s = r.choice(["inf", "+inf", "-inf", "nan", "INF", "NaN", "-Inf", "+INF"])
@@ -153,7 +156,15 @@ class StrOps:
         if k < 0.30:
             g.note("lit_kind", "tie")
             return self.decorate(g, self.tie_literal(g), ws)
-        if k < 0.36:
+        if k < 0.33:
+            # no digit before the point and only zeros after it (repaired in 59f8b17), with and without separators
+            g.note("lit_kind", "dot-zero")
+            z = "0" * r.randint(1, 6)
+            if r.random() < 0.3 and len(z) > 1:
+                z = z[0] + "_" + z[1:]
+            body = r.choice(["." + z, "." + z, "0." + z, "0_0." + z, "00."])
+            return self.decorate(g, sign + body + self.exp_part(g), ws)
+        if k < 0.40:
             g.note("lit_kind", "underscore")
             a = "_".join(self.digits(g, r.randint(1, 4), "random") for _ in range(r.randint(1, 3)))
             b = "_".join(self.digits(g, r.randint(1, 4), "random") for _ in range(r.randint(1, 3)))
@@ -223,10 +234,13 @@ class StrOps:
         g.note("lit_kind", "scaled-tie")
         return r.choice(["", "-"]) + str(d) + "e" + str(E)
 
+    # literals that were rejected or mis-read before the repairs ad5f351 / 59f8b17 (now ordinary valid cases)
+    REPAIRED = ["1.5_0", ".0", "-.0", "+.0", ".0e5", ".00e-3", "1.0_1", "1_0.0_1", "0_0", "-.0_0e1_0", "1_2.3_4e-5_6", ".0l", " .0 "]
+
     MALFORMED = ["", ".", "e5", "1e", "1e+", "1..2", "1.2.3", "1e5e5", "--1", "+-1", "1_", "_1", "1__0", "1 2", "abc", "0x10",
-                 "1/2/3", "1/", "/2", "1/0", "0/0", "infinity", "-nan", "+nan", "1.5_0", ".0", "-.0", ".0e5", "1,5", "1e1.5",
-                 "1.0_1", "1_0.0_1", "1._5", "1_.5", "1e_5", "l", "1el", "in f", "1.5/2", "1/2.5", "1e3/2", "1\x005", "1.5 5",
-                 "1.5\x1c", "\x1c1.5", "- 1", "1 e5", "1e 5", "1 /2", "1/ 2", "1d5", "nan/1", "0_0", "-0", "1" * 4300, "1" * 4301,
+                 "1/2/3", "1/", "/2", "1/0", "0/0", "infinity", "-nan", "+nan", "1,5", "1e1.5",
+                 "1._5", "1_.5", "1e_5", "l", "1el", "in f", "1.5/2", "1/2.5", "1e3/2", "1\x005", "1.5 5",
+                 "1.5\x1c", "\x1c1.5", "- 1", "1 e5", "1e 5", "1 /2", "1/ 2", "1d5", "nan/1", "-0", "1" * 4300, "1" * 4301,
                  "0" * 4301, "1." + "3" * 4300, "1e" + "0" * 4301 + "5"]
 
     def malformed_literal(self, g):
@@ -511,6 +525,110 @@ class StrOps:
         l2 = "to_str %s %d %s%s" % (enc_mpf(imn), dps, tail, self.lnargs(imn))
         return [l1, l2, " - " if im[0] else " + "], (lambda: LC.mpc_to_str((re, im), dps, **kw)), {"enc": enc_S, "mpc": True}
 
+    # ----- intervals from strings (libmpi.mpi_from_str, ctx_iv) ---------------------------------
+    IV_MALFORMED = ["", "(1,2)", "1 +- 2%", "1 +- -1", "1 (2) (3)", "1+-2+-3", "[1,2,3]", "1[2,3", "x[1,2]", "1 (nan)",
+                    "1%(2)", "1.2[3,4]E5", "[1, 2", "1, 2]", "1,2", "[,]", "[1,]", "1 ()", "1 (%)", "+-", "1 +-", "+- 1", "1 (2",
+                    "1 2)", "1.2[3,4]e5]", "1.2[3,4,5]e5", "1[2]", "[[1,2]]", "1 (-5%)", "nan", "[nan, 1]", "[inf, -inf]",
+                    "1 (inf)", "inf (5%)", "[2,1]", "1.2[4,3]e5", "[1, 2]e3", "1 ( 5 % )", "(1)", "1 (5%%)", "1% (5)"]
+
+    def num_lit(self, g, nonneg=False):
+        r = g.r
+        while True:
+            lit = self.valid_literal(g, ws=False)
+            self._tie_prec = None
+            if len(lit) > 500 or "/" in lit:
+                continue
+            if nonneg and lit.startswith("-") and r.random() < 0.9:
+                lit = lit[1:]
+            return lit
+
+    def iv_string(self, g):
+        """an interval string; self._iv_parts = (form, literal pieces) for the well-formed forms, else None"""
+        r = g.r
+        k = r.random()
+        sp = lambda: r.choice(["", "", " ", "  "])
+        self._iv_parts = None
+        if k < 0.12:
+            g.note("iv_form", "malformed")
+            if r.random() < 0.6:
+                return r.choice(self.IV_MALFORMED)
+            s = self.iv_string(g)
+            self._iv_parts = None
+            i = r.randint(0, len(s))
+            return s[:i] + r.choice("+-()[],%e ]1") + s[i + r.choice([0, 1]):]
+        if k < 0.30:
+            g.note("iv_form", "a+-b")
+            a, b = self.num_lit(g), self.num_lit(g, True)
+            self._iv_parts = ("pm", a, b)
+            return a + sp() + "+-" + sp() + b
+        if k < 0.50:
+            g.note("iv_form", "a(b)")
+            pc = r.choice(["", "%", "%", " %"])
+            a, b = self.num_lit(g), self.num_lit(g, True)
+            self._iv_parts = ("pct" if pc else "pm", a, b)
+            return a + sp() + "(" + sp() + b + pc + sp() + ")"
+        if k < 0.68:
+            g.note("iv_form", "[a,b]")
+            a, b = self.num_lit(g), self.num_lit(g)
+            self._iv_parts = ("ab", a, b)
+            return "[" + sp() + a + sp() + "," + sp() + b + sp() + "]"
+        if k < 0.86:
+            g.note("iv_form", "x[y,z]e")
+            x = r.choice(["", "-", "+"]) + self.digits(g, r.randint(0, 30), "random")
+            if r.random() < 0.7:
+                x += "." + self.digits(g, r.randint(0, 30), "random")
+            y = self.digits(g, r.randint(1, 5), "random")
+            z = self.digits(g, r.randint(1, 5), "random")
+            e = r.choice(["", "", "e5", "e-7", "e+400", "e-401", "E5", "e" + str(r.randint(-500, 500))])
+            # with no shared digits the string starts with '[' and the code reads it as form 3: [y, z e]
+            self._iv_parts = ("ab", x + y + e, x + z + e) if x else ("ab", y, z + e)
+            return x + "[" + y + sp() + "," + sp() + z + "]" + e
+        g.note("iv_form", "plain")
+        a = self.num_lit(g)
+        self._iv_parts = ("ab", a, a)
+        return a
+
+    def gen_mpi_from_str(self, g):
+        import mpmath.libmp.libmpi as LI
+        s = self.iv_string(g)
+        prec = g.prec()
+        return ("mpi_from_str %s %d" % (enc_str(s), prec), (lambda: LI.mpi_from_str(s, prec)),
+                {"lit": s, "parts": self._iv_parts, "prec": prec})
+
+    def gen_iv_mpf_str(self, g):
+        """iv.mpf('...') at iv.prec"""
+        iv = self.mpmath.iv
+        s = self.iv_string(g)
+        prec = g.prec()
+
+        def thunk():
+            old = iv.prec
+            try:
+                iv.prec = prec
+                return iv.mpf(s)._mpi_
+            finally:
+                iv.prec = old
+        return "mpi_from_str %s %d" % (enc_str(s), prec), thunk, {"lit": s}
+
+    def gen_iv_mpf_pair(self, g):
+        """iv.mpf(('a', 'b')): convert_mpf_ with floor / ceiling, nan handling, ordering assert"""
+        iv = self.mpmath.iv
+        r = g.r
+        a = self.num_lit(g) if r.random() < 0.85 else r.choice(["nan", "inf", "-inf", "abc", ""])
+        b = self.num_lit(g) if r.random() < 0.85 else r.choice(["nan", "inf", "-inf", "1e", " 2 "])
+        if r.random() < 0.3:
+            b = a
+        prec = g.prec()
+
+        def thunk():
+            old = iv.prec
+            try:
+                iv.prec = prec
+                return iv.mpf((a, b))._mpi_
+            finally:
+                iv.prec = old
+        return "iv_convert_str_pair %s %s %d" % (enc_str(a), enc_str(b), prec), thunk, {"lit": a + "|" + b}
+
     def gen_repr_dps(self, g):
         n = g.r.choice([g.r.randint(1, 400), g.r.randint(1, 10 ** 6), 53, 52, 54, 49, 50, 51, 56, 57])
         return "repr_dps %d" % n, (lambda: self.L.repr_dps(n)), {}
@@ -536,7 +654,32 @@ class StrOps:
 
 
 ALL_STR_OPS = ["str_to_man_exp", "from_str", "mpf_ctor", "mpmathify", "to_digits_exp", "to_str", "nstr", "str", "repr",
-               "mpc_str", "repr_dps", "prec_to_dps", "dps_to_prec", "numeral"]
+               "mpc_str", "repr_dps", "prec_to_dps", "dps_to_prec", "numeral", "mpi_from_str", "iv_mpf_str", "iv_mpf_pair"]
+
+
+def exact_dec(lit):
+    """exact value of a decimal literal (float() grammar incl. separators), independent of mpmath"""
+    from decimal import Decimal
+    t = lit.strip().lower().rstrip("l")
+    sg, dg, ex = Decimal(t).as_tuple()
+    if not isinstance(ex, int):
+        raise ValueError("special")
+    n = int("".join(map(str, dg))) if dg else 0
+    v = Fraction(n * 10 ** ex) if ex >= 0 else Fraction(n, 10 ** (-ex))
+    return -v if sg else v
+
+
+def denoted_range(parts):
+    """the number range denoted by a well-formed interval string (iv_string parts); None if it has none
+    (negative half-width, special values, inverted endpoints are still reported as given)"""
+    form, a, b = parts
+    va, vb = exact_dec(a), exact_dec(b)
+    if form == "ab":
+        return va, vb
+    if vb < 0:
+        return None
+    w = vb if form == "pm" else abs(va) * vb / 100
+    return va - w, va + w
 
 
 def run_t1(ops, ncases, seed, so=None):
@@ -604,6 +747,21 @@ def validate_floats(max_dps=20003, max_prec=10 ** 6, max_fix=120000):
 # API-level laws (spec side, no model): eval(repr(x)) == x ; float()/Decimal() parse the printed string
 # ------------------------------------------------------------------------------------------------
 
+def load_repr_corpus():
+    """corpus/C08/*.txt: one case per line `<prec> <sign:hexman:exp:bc>` ('#' starts a comment)"""
+    import glob
+    cases = [(54, (1, 11537171455164529, 249, 54))]     # built in: the witness of the prec-54 repr defect (c03e100)
+    for fn in sorted(glob.glob(os.path.join(CORPUS_DIR, "C08", "*.txt"))):
+        for line in open(fn):
+            line = line.split("#")[0].strip()
+            if not line:
+                continue
+            t = line.split()
+            if len(t) == 2:
+                cases.append((int(t[0]), dec_mpf(t[1])))
+    return cases
+
+
 def run_laws(ncases, seed):
     from decimal import Decimal
     so = StrOps()
@@ -613,9 +771,19 @@ def run_laws(ncases, seed):
     bad = []
     counts = {"repr_roundtrip": 0, "repr_roundtrip_mpc": 0, "parse_float_decimal": 0, "nearest": 0, "nearest_fail": 0}
     old = mp.prec
+    counts["corpus"] = 0
     try:
+        for prec, s in load_repr_corpus():
+            mp.prec = prec
+            s = L.normalize(s[0], L.MPZ(s[1]), s[2], L.bitcount(s[1]), prec, "n") if s[1] else s
+            x = mp.make_mpf(s)
+            counts["corpus"] += 1
+            if eval(repr(x), {"mpf": mpmath.mpf})._mpf_ != s:
+                bad.append(("repr_roundtrip", prec, s, repr(x)))
         for i in range(ncases):
             prec = g.prec()
+            if g.r.random() < 0.08:
+                prec = g.r.choice([49, 50, 52, 53, 54, 55, 56, 59, 60])   # around the repr_dps special case (dps == 15 -> 17)
             mp.prec = prec
             s = so.ctx_value(g, prec)
             x = mp.make_mpf(s)
@@ -703,19 +871,32 @@ def replay_findings():
     x = L.from_man_exp(mm, -1002)
     t = L.to_str(x, 1)
     out.append(("D5 to_str(<1000-bit number just above 0.15>, 1) == '0.1'", t == "0.1", (t, x[3])))
-    # literal-grammar findings
-    for lit, want in [("1.0_1", Fraction(101, 100)), ("1_0.0_1", Fraction(1001, 100))]:
-        man, ex = L.str_to_man_exp(lit)
-        out.append(("underscore in fraction: str_to_man_exp(%r) value != float value" % lit,
-                    Fraction(int(man)) * Fraction(10) ** ex != want and float(lit) == float(want), (int(man), ex)))
-    for lit in [".0", "-.0", ".00e3", "1.5_0", "1" * 4301]:
+    # literal-grammar findings, REPAIRED in /repo (ad5f351, 59f8b17): now checked positively
+    for lit, want in [("1.0_1", Fraction(101, 100)), ("1_0.0_1", Fraction(1001, 100)), ("1.5_0", Fraction(3, 2)),
+                      (".0", Fraction(0)), ("-.0", Fraction(0)), (".00e3", Fraction(0))]:
         try:
-            L.from_str(lit, 53, "n"); ok = False
-        except ValueError:
-            ok = True
-        float(lit)
-        out.append(("float() accepts, from_str raises ValueError: %r" % (lit[:12] + ("..." if len(lit) > 12 else "")), ok, None))
-    # to_str(0, 0) prints '.0', which from_str rejects
+            man, ex = L.str_to_man_exp(lit)
+            ok = Fraction(int(man)) * Fraction(10) ** ex == want and float(want) == float(lit)
+        except Exception:  # noqa
+            ok = False
+        out.append(("repaired: str_to_man_exp(%r) has the float() value" % lit, ok, None))
+    try:
+        L.from_str("1" * 4301, 53, "n"); ok = False
+    except ValueError:
+        ok = True
+    out.append(("float() accepts, from_str raises ValueError (CPython int(str) digit limit): '1'*4301", ok, None))
+    # repr at prec 54 used 17 digits, too few to separate 54-bit numbers; REPAIRED in c03e100 (Props/C08.lean reprDpsOK)
+    old = mp.prec
+    try:
+        mp.prec = 54
+        x = mp.make_mpf((1, 11537171455164529, 249, 54))
+        y = eval(repr(x), {"mpf": mpmath.mpf})
+        out.append(("repaired: repr round trip at prec 54 (repr_dps(54) == 18)", y == x and L.repr_dps(54) == 18, (repr(x), y._mpf_)))
+        out.append(("repaired: 10**(repr_dps(p)-1) > 2**p for every 1 <= p <= 20000",
+                    all(10 ** (L.repr_dps(p) - 1) > 2 ** p for p in range(1, 20001)), None))
+    finally:
+        mp.prec = old
+    # to_str(0, 0) prints '.0' (parsed back since 59f8b17)
     out.append(("to_str(fzero, 0) == '.0'", L.to_str(L.fzero, 0) == ".0", None))
     # mpc_to_str forwards the formatting options to the imaginary part only
     s = mp.nstr(mpmath.mpc(1, 1), 5, strip_zeros=False)
